@@ -514,7 +514,7 @@ pub fn run(cfg: &Cfg, rep: &mut Report) {
     });
     // the same histories over other element shapes: an enum whose equality ignores the variant, a large
     // heap-owning struct
-    let n = if miri { 12 } else { cfg.n(60_000, 10_000_000) };
+    let n = if miri { 12 } else { cfg.n(60_000, 4_000_000) };
     run_stage(cfg, rep, "shapes", n, |idx, rng, r| {
         let h = if idx % 16 == 15 && !miri { gen_long(rng) } else { gen_hist(rng) };
         let rp = || crate::util::replay_ref(cfg, "shapes", idx);
